@@ -15,7 +15,7 @@ def apply(c):
         if fn not in ('write_common',):
             c.mark(rel, Q_IMPL, fn, '#[verifier::external]')
     c.contract(rel, Q_IMPL, 'write_common', """
-        ensures r is Ok ==> wrote(old(out), final(out), self.fixed_enc()), // @C02:question-fixed-part
+        ensures r is Ok ==> wrote(old(out), final(out), self.fixed_enc()), // @C02:question-fixed-part,C11:question-fixed-part
 """)
     c.wrap(rel, Q_IMPL)
     c.append(rel, """verus!{
@@ -110,7 +110,7 @@ pub proof fn lemma_q_fixed(qtype: QTYPE, qclass: QCLASS, uni: bool)
         ensures r.name == name, r.class == class, r.ttl == ttl, r.rdata == rdata, r.cache_flush == false,
 """)
     c.contract(rel, RR_IMPL, 'write_common', """
-        ensures r is Ok ==> wrote(old(out), final(out), self.fixed_enc()), // @C02:record-fixed-part
+        ensures r is Ok ==> wrote(old(out), final(out), self.fixed_enc()), // @C02:record-fixed-part,C11:record-fixed-part
 """)
     c.wrap(rel, RR_IMPL)
     c.append(rel, """verus!{
